@@ -15,7 +15,7 @@ RULE = ('model states reached (a) by the operation histories of C02 through the 
         'predicate functions, order_by / reverse_order_by on 1-2 attributes (ties frequent); navigation chains of '
         "1-4 hops via .nav() and the X[n, 'phrase'] syntax from None, an instance, a QuerySet, a list or a generator, "
         'through association classes (direct class-to-class hop) and reflexive phrases, with filters, in many/one/any '
-        'form; navigate_subtype (also after every supertype instance of a history state was moved, one subtype class after the other, to a new subtype instance). Every returned set is then emptied by the caller (a result is a value, not a view of the model); for half of the history states the model is changed a little afterwards (values of a later instance copied to an earlier one, further relate / unrelate / delete calls) and the same queries are asked again. Oracle: evaluation over the plain relational shadow (filter = conjunction in '
+        'form (a quarter of the states are models populated before their associations were formalised - raw values in the referential attributes, batch_relate + formalize - in which instances are then moved to other partners); navigate_subtype (also after every supertype instance of a history state was moved, one subtype class after the other, to a new subtype instance). Every returned set is then emptied by the caller (a result is a value, not a view of the model); for half of the history states the model is changed a little afterwards (values of a later instance copied to an earlier one, further relate / unrelate / delete calls) and the same queries are asked again. Oracle: evaluation over the plain relational shadow (filter = conjunction in '
         'creation order, stable sort, descending keeps ties in original order, navigation = duplicate-free union in '
         'encounter order). non-trivial = query with >= 2 operators or a chain of >= 2 hops from >= 2 start '
         'instances, with a non-empty expected result and >= 1 candidate filtered out; distinct = by (state, query).')
@@ -84,9 +84,20 @@ def cases(draw):
             h['tail'] += h['ops'][-k:]
             h['ops'] = h['ops'][:-k]
         return h
+    if draw(st.integers(0, 3)) == 0:
+        # the model is populated BEFORE its associations are formalised (instances hold raw values in the referential
+        # attributes; batch_relate + formalize afterwards), then some instances are moved to another partner
+        from . import c01_roundtrip
+        c = draw(c01_roundtrip.cases())
+        return {'source': 'late', 'schema': c['schema'], 'pop': c['pop'], 'drop': c['drop'], 'queries': draw(query_specs()),
+                'relink': draw(st.lists(st.tuples(st.integers(0, 30), st.integers(0, 5), st.booleans()), min_size=1, max_size=4))}
     schema_js = draw(gen_schema.schemas(max_classes=3, max_assocs=3, max_extra_attrs=2, key_types=['INTEGER', 'STRING', 'UNIQUE_ID']))
     rows = draw(popgen.dirty_rows(schema_js, max_rows=4))
     return {'source': 'load', 'schema': schema_js, 'rows': [list(r) for r in rows], 'queries': draw(query_specs())}
+
+
+class Unusable(Exception):
+    """the drawn case does not describe a state of the kind meant (counted in discarded)"""
 
 
 class State(object):
@@ -113,6 +124,47 @@ class State(object):
             self.found = []
             self.found_kv = {}
             self.real = dict((rec.idx, r.real[rec.idx]) for rec in r.sh.recs)
+        elif case['source'] == 'late':
+            from . import c01_roundtrip
+            from .shadow import Rejected
+            c = {'schema': case['schema'], 'pop': case['pop'], 'late': True, 'drop': case.get('drop', []), 'unset': [], 'edits': []}
+            if case['pop'].get('unresolvable'):
+                raise Unusable('population not expressible by key values')
+            sh0, recs0 = popgen.shadow_from_links(case['schema'], case['pop']['rows'], case['pop']['links'])
+            for i, s_, t_ in case['pop']['links']:
+                a = self.schema.assocs[i]
+                if any(sh0.attr(recs0[a['tgt'].upper()][t_], k) is None for k in a['tgt_keys']):
+                    raise Unusable('late: a link rests on unset key values')
+            self.m, insts = c01_roundtrip.build_m0_late(c)
+            links = c01_roundtrip.final_links(c)
+            self.sh, recs = popgen.shadow_from_links(case['schema'], case['pop']['rows'], links)
+            self.real = {}
+            for K, rs in recs.items():
+                for k, rec in enumerate(rs):
+                    self.real[rec.idx] = insts[K][k]
+            self.relinked = 0
+            for li, tk, back in case.get('relink', []):
+                if not links:
+                    break
+                i, s_, t_ = links[li % len(links)]
+                a = self.schema.assocs[i]
+                srec, trec = recs[a['src'].upper()][s_], recs[a['tgt'].upper()][t_]
+                if not any(p is trec for p in self.sh.partners(i, srec, True)):
+                    continue
+                others = [r for r in recs[a['tgt'].upper()] if r is not trec and r.alive]
+                self.sh.unrelate(srec, trec, a['rel'], a['src_phrase'])
+                xtuml.unrelate(self.real[srec.idx], self.real[trec.idx], a['rel'], a['src_phrase'])
+                self.relinked += 1
+                if others and not back:
+                    t2 = others[tk % len(others)]
+                    if any(self.sh.attr(t2, k) is None for k in a['tgt_keys']):
+                        continue
+                    try:
+                        if self.sh.relate(srec, t2, a['rel'], a['src_phrase']) != 'linked':
+                            continue
+                    except Rejected:
+                        continue
+                    xtuml.relate(self.real[srec.idx], self.real[t2.idx], a['rel'], a['src_phrase'])
         else:
             self.m, _text = popgen.load_rows(case['schema'], case['rows'])
             self.sh, recs = popgen.shadow_from_rows(case['schema'], case['rows'])
@@ -531,7 +583,13 @@ def run(ctx):
 
     def body(case):
         try:
-            st_ = State(case)
+            try:
+                st_ = State(case)
+            except Unusable as u:
+                res.discarded[str(u)] += 1
+                return
+            if case['source'] == 'late' and st_.relinked:
+                res.classes['late-model-relinked'] += 1
             run_queries(st_, case, res)
             if systematic_two_hop(st_, case) and res is not None:
                 res.classes['two-hop-probe'] += 1
@@ -605,7 +663,10 @@ def second_pass(st_, case):
 
 
 def replay(case):
-    st_ = State(case)
+    try:
+        st_ = State(case)
+    except Unusable:
+        return
     run_queries(st_, case)
     systematic_two_hop(st_, case)
     check_links_unchanged(st_, case)
